@@ -385,10 +385,11 @@ bool g_expect_secure;
 
 #define FROM_SEPARATE __CPROVER_requires(CUR_OK(from))
 /* the aliasing the API allows: the source view lies inside the bytes already written to the destination */
+size_t g_aoff; /* ghost: offset of the aliased source view inside the destination */
 #define FROM_INSIDE_TO                                                                                                 \
     __CPROVER_requires(__CPROVER_is_fresh(from, sizeof(*from)))                                                        \
-    __CPROVER_requires(to->len > 0 && __CPROVER_pointer_in_range_dfcc(to->buffer, from->ptr, to->buffer + to->len))    \
-    __CPROVER_requires(from->len <= to->len - __CPROVER_POINTER_OFFSET(from->ptr))
+    __CPROVER_requires(to->len > 0 && g_aoff <= to->len && PEQ(from->ptr, to->buffer + g_aoff))                        \
+    __CPROVER_requires(from->len <= to->len - g_aoff)
 
 #if defined(VERIF_APPEND_DYNAMIC_HUGE)
 /* source length beyond any object: must be refused (or die in the allocator) before a byte is touched */
